@@ -215,8 +215,14 @@ def exec_call(c):
 
     if api == "schemaless_reader":
         bio = io.BytesIO(c["data"])
-        return outcome(lambda: fastavro.schemaless_reader(bio, c["schema"], c.get("reader_schema"), **c.get("kw", {})),
-                       lambda: bio.tell()), None
+
+        def f():
+            keep["v"] = fastavro.schemaless_reader(bio, c["schema"], c.get("reader_schema"), **c.get("kw", {}))
+            return keep["v"]
+        r = outcome(f, lambda: bio.tell())
+        if c.get("$mutate_result") and "v" in keep:
+            consume(keep["v"])                 # the consumer edits what it was handed, after the call returned
+        return r, None
 
     if api == "writer":
         bio = io.BytesIO()
@@ -236,6 +242,8 @@ def exec_call(c):
             hdr = [rd.codec, rd.writer_schema, rd.metadata]
             for rec in rd:
                 got.append(canon(rec))
+                if c.get("$mutate_result"):
+                    consume(rec)               # ... before the next record is read
             return hdr
         return outcome(f, lambda: got), None                   # records yielded before a failure are observable
 
@@ -311,6 +319,8 @@ def exec_call(c):
         def f():
             for rec in fastavro.json_reader(sio, c["schema"], **c.get("kw", {})):
                 got.append(canon(rec))
+                if c.get("$mutate_result"):
+                    consume(rec)
             return None
         return outcome(f, lambda: got), None
 
@@ -349,6 +359,39 @@ EXEMPT_ARGS = ("named_schemas",        # "apart from filling the caller-supplied
 OBSERVE_ARGS = ("metadata",)           # O2: neither schema nor data; recorded, not flagged
 
 
+def consume(x, _seen=None):
+    """what a consumer may do with a value it was handed: add to every container in it"""
+    _seen = _seen if _seen is not None else set()
+    if id(x) in _seen:
+        return
+    _seen.add(id(x))
+    if isinstance(x, list):
+        for v in list(x):
+            consume(v, _seen)
+        x.append("__consumer__")
+    elif isinstance(x, dict):
+        for v in list(x.values()):
+            consume(v, _seen)
+        x["__consumer__"] = 1
+    elif isinstance(x, tuple):
+        for v in x:
+            consume(v, _seen)
+
+
+def mutate(c):
+    """harness-side: the CALLER changes a datum object it used in an earlier call (the history is pickled as one object
+    graph, so `target` is that very object)"""
+    t = c["target"]
+    for k in c.get("path", []):
+        t = t[k]
+    if c["action"] == "set":
+        t[c["key"]] = c["value"]
+    elif c["action"] == "delete":
+        t.pop(c["key"], None)
+    elif c["action"] == "append":
+        t.append(c["value"])
+
+
 def resolve(c, slots):
     def r(v):
         if isinstance(v, dict) and len(v) == 1 and "$slot" in v:
@@ -365,6 +408,9 @@ def run_history(calls):
     for i, c in enumerate(calls):
         if c["api"] == "new_dict":                      # harness-side helper, not an API call
             slots[c["$out"]] = {}
+            continue
+        if c["api"] == "mutate":                        # harness-side: the caller edits its own datum object
+            mutate(c)
             continue
         rc = resolve(c, slots)
         exempt = {id(rc[k]) for k in EXEMPT_ARGS if rc.get(k) is not None}
